@@ -2,6 +2,25 @@
 over the shards; budgets are case counts, never time."""
 
 PROPS = {
+    "C01": {
+        "pkg": "c01", "needs_gw": True, "level": "exploration",
+        "technique": "stateful property-based testing (rapid) against a map model: upload / read programs over 1-3 real gateway processes sharing one storage, with restarts; oracle = byte-exact round trip of body, length, ETag, content headers, user metadata, tags, checksums, and agreement of listings / attribute queries with GET",
+        "level_text": ("Generated programs (3-14 steps) over real `versitygw posix` processes (1-3 on one storage; xattr or sidecar metadata; O_TMPFILE or "
+                       "named temp files; versioning directory on/off): put in 6 encodings (signed payload, UNSIGNED-PAYLOAD, presigned, signed / "
+                       "signed+trailer / unsigned+trailer aws-chunked with 5 checksum algorithms, optional Content-MD5 / checksum header, generated "
+                       "chunk sizes and TCP write fragmentation), multipart uploads whose parts go through alternating processes, server-side copy "
+                       "with COPY / REPLACE metadata and tagging directives, get / head / GetObjectAttributes / GetObjectTagging / ListObjectsV2, "
+                       "and SIGTERM / SIGKILL restarts; bodies from a boundary-size table (0 ... 1 MiB+1, 5 MiB parts), keys built from URL-reserved "
+                       "and multi-byte characters, deep nesting and 255-byte segments. After every acknowledged upload each read through any "
+                       "process must return exactly the model's bytes, length, ETag (MD5 / multipart ETag), headers, metadata, tags, checksums."),
+        "level_note": "an upload that is refused is 'not acknowledged' and only counted; Content-Encoding of aws-chunked uploads and the ETag of a copied multipart object are not judged. Open finding C01-sidecar-stale-attributes narrows the attribute comparison for overwritten keys in sidecar mode to 'supplied attributes are present'. Exploration only.",
+        "rule": ("case = (config, nproc, keys, ops). Non-trivial: the program reads an acknowledged object through a different process than the one that "
+                 "acknowledged it, or after a restart, or the key contains URL-reserved characters; distinct by the full case."),
+        "assumptions": ["real processes on loopback TCP, unprivileged uid", "time.Now() only for signing dates"],
+        "jobs": [
+            {"run": "TestC01A", "quick": 560, "thorough": 16000, "shards_quick": 16, "shards_thorough": 16},
+        ],
+    },
     "C06": {
         "pkg": "c06", "needs_gw": True, "level": "exploration",
         "technique": "property-based testing (rapid): upload mode x integrity field x corruption x target x prior state; oracle = refusal and unchanged prior state for corrupted uploads, exact stored bytes for the control",
@@ -69,7 +88,7 @@ PROPS = {
                        "documents), path tails, aws-chunked bodies with hostile framing. Plus a sweep that enumerates operation x own parameter x all "
                        "26 numeric boundary values and operation x hostile document. After each request: no panic anywhere in the in-process chain / "
                        "the real process is alive, the answer arrives within 30 s and parses as HTTP with an S3 <Error> document (or a plain 4xx of the "
-                       "HTTP layer), < 256 MiB allocated, and ListBuckets by root still answers 200."),
+                       "HTTP layer), allocations stay below 256 MiB + 16x the bytes actually sent (no allocation sized by a merely declared number), and ListBuckets by root still answers 200."),
         "level_note": "bounded time is a 30 s hang detector, not a latency bound; a 5xx with a well-formed error document is accepted (the statement asks for well-formedness, not for a specific status). Exploration only.",
         "rule": ("case = (config, op, target, caller, mutations, bad-auth, chunk hack, engine); every case is non-trivial (at least one field is hostile); distinct by the full tuple."),
         "assumptions": ["in-process engine replicates runGateway wiring; TestC20P observes death of the shipped binary directly", "event sender, audit logger and metrics are off"],
